@@ -193,6 +193,111 @@ fn main() {
             c.to_vec().len()
         });
     }
+
+    if on("delta-queries") {
+        let hi = i64::MAX as u64 - 1;
+        let c = DeltaColumn::<u64>::from_values(vec![hi]);
+        let r = try_("DeltaColumn<u64>[2^63-2].scope_to_value(2^63-2, ..)", || c.scope_to_value(hi, ..));
+        println!("  -> {:?} (expected Some(0..1))", r);
+        let c = DeltaColumn::<i64>::from_values(vec![-(1 << 62), (1 << 62) - 1]);
+        let r = try_("DeltaColumn<i64>[-2^62, 2^62-1].find_by_value(2^62-1)", || c.find_by_value((1 << 62) - 1).collect::<Vec<_>>());
+        println!("  -> {:?} (expected Some([1]))", r);
+        let c = DeltaColumn::<u64>::from_values(vec![0, i64::MAX as u64, i64::MAX as u64 - 1]);
+        let r = try_("DeltaColumn<u64>[0, 2^63-1, 2^63-2].find_by_range(-1i64..1)", || c.find_by_range(-1i64..1).collect::<Vec<_>>());
+        println!("  -> {:?} (expected Some([0]))", r);
+    }
+    if on("load-panics") {
+        fn show<T>(name: &str, f: impl FnOnce() -> Result<T, hexane::PackError> + std::panic::UnwindSafe) {
+            match std::panic::catch_unwind(f) {
+                Ok(Ok(_)) => println!("[ok]    {name} -> Ok"),
+                Ok(Err(e)) => println!("[ok]    {name} -> Err({e})"),
+                Err(_) => println!("[PANIC] {name}"),
+            }
+        }
+        // run header i64::MIN (signed LEB 80*9 7f)
+        let min_hdr = [0x80u8, 0x80, 0x80, 0x80, 0x80, 0x80, 0x80, 0x80, 0x80, 0x7f];
+        show("Column::<u64>::load(header = i64::MIN)", move || Column::<u64>::load(&min_hdr).map(|c| c.len()));
+        // bool counts [u64::MAX, 2, 1]
+        let b = [0xffu8, 0xff, 0xff, 0xff, 0xff, 0xff, 0xff, 0xff, 0xff, 0x01, 0x02, 0x01];
+        show("Column::<bool>::load(counts [u64::MAX, 2, 1])", move || Column::<bool>::load(&b).map(|c| c.len()));
+        // null run of u64::MAX followed by a literal
+        let n = [0x00u8, 0xff, 0xff, 0xff, 0xff, 0xff, 0xff, 0xff, 0xff, 0xff, 0x01, 0x7f, 0x05];
+        show("Column::<Option<u64>>::load(null*u64::MAX, literal 5)", move || Column::<Option<u64>>::load(&n).map(|c| c.len()));
+        // repeat run 2^62 x u32::MAX: the prefix sum overflows u64
+        let p = [0x80u8, 0x80, 0x80, 0x80, 0x80, 0x80, 0x80, 0x80, 0xc0, 0x00, 0xff, 0xff, 0xff, 0xff, 0x0f];
+        show("PrefixColumn::<u32>::load(run 2^62 x u32::MAX)", move || hexane::PrefixColumn::<u32>::load(&p).map(|c| c.len()));
+        show("Column::<u32>::load(run 2^62 x u32::MAX)", move || Column::<u32>::load(&p).map(|c| c.len()));
+    }
+    if on("bool-wrap") {
+        // release builds: the length sum wraps and load accepts a column that reads inconsistently
+        let b = [0xffu8, 0xff, 0xff, 0xff, 0xff, 0xff, 0xff, 0xff, 0xff, 0x01, 0x02, 0x08, 0x03];
+        let r = std::panic::catch_unwind(move || {
+            hexane::Column::<bool>::load_with(&b, hexane::LoadOpts::new().with_max_segments(6)).map(|c| {
+                let len = c.len();
+                let runs: Vec<(bool, usize)> = c.iter().runs().map(|r| (r.value, r.count)).collect();
+                (len, c.get(0), c.get(len.wrapping_sub(1)), runs)
+            })
+        });
+        println!("Column<bool> counts [u64::MAX,2,8,3] load_with(max_segments=6): {:?}", r.map(|x| x.map_err(|e| e.to_string())).map_err(|_| "PANIC"));
+    }
+    if on("delta-i64-window") {
+        // deltas [MIN+1, MAX, MAX-1] realize MIN+1, 0, MAX-1: in i64 but not within any 2^63-wide window
+        let bytes = Column::<i64>::from_values(vec![i64::MIN + 1, i64::MAX, i64::MAX - 1]).save();
+        let small = DeltaColumn::<i64>::load_with(&bytes, hexane::LoadOpts::new().with_max_segments(2));
+        println!("load_with(max_segments=2): {:?}", small.as_ref().map(|c| c.to_vec()).map_err(|e| e.to_string()));
+        let dflt = DeltaColumn::<i64>::load(&bytes);
+        println!("load (default max_segments): {:?}", dflt.as_ref().map(|c| c.to_vec()).map_err(|e| e.to_string()));
+        if let Ok(c) = small {
+            let again = DeltaColumn::<i64>::load(&c.save());
+            println!("load(save(col loaded with max_segments=2)): {:?}", again.map(|c| c.to_vec()).map_err(|e| e.to_string()));
+        }
+        // a longer one: the same values repeated so that a 32-segment slab overflows its partial sum
+        let mut vals = vec![];
+        for _ in 0..40 {
+            vals.extend([i64::MAX - 1, -(i64::MAX - 1)]);
+        }
+        // realized: MAX-1, 0, MAX-1, 0, ... all inside [0, 2^63): valid for u64 too
+        let bytes = Column::<i64>::from_values(vals).save();
+        println!("alternating 2^63-2 / 0 as DeltaColumn<u64>: load -> {:?}", DeltaColumn::<u64>::load(&bytes).map(|c| c.len()).map_err(|e| e.to_string()));
+    }
+
+    if on("delta-i64-window2") {
+        // realized values cycle MIN+1, 0, MAX-1, 0: every delta fits i64, the values do not fit a 2^63-wide window
+        let mut deltas = vec![];
+        let mut prev = 0i64;
+        for k in 0..24 {
+            let v = [i64::MIN + 1, 0, i64::MAX - 1, 0][k % 4];
+            deltas.push(v.wrapping_sub(prev));
+            prev = v;
+        }
+        let bytes = Column::<i64>::from_values(deltas).save();
+        for ms in [2usize, 4, 8, 64] {
+            let r = DeltaColumn::<i64>::load_with(&bytes, hexane::LoadOpts::new().with_max_segments(ms));
+            println!("DeltaColumn<i64>::load_with(max_segments={ms}) -> {}", match &r { Ok(c) => format!("Ok(len {})", c.len()), Err(e) => format!("Err({e})") });
+            if let Ok(c) = r {
+                let again = DeltaColumn::<i64>::load(&c.save());
+                println!("    load(save(that column)) -> {}", match &again { Ok(c) => format!("Ok(len {})", c.len()), Err(e) => format!("Err({e})") });
+            }
+        }
+    }
+
+    if on("delta-i64-window3") {
+        // 31 small steps, then up to MAX-1 (end of the first 32-segment slab), then 0, then MIN+1
+        let mut deltas: Vec<i64> = (0..31).map(|i| 1 + (i % 2)).collect();
+        let s: i64 = deltas.iter().sum();
+        deltas.push(i64::MAX - 1 - s);
+        deltas.push(-(i64::MAX - 1));
+        deltas.push(i64::MIN + 1);
+        let bytes = Column::<i64>::from_values(deltas).save();
+        for ms in [2usize, 64] {
+            let r = DeltaColumn::<i64>::load_with(&bytes, hexane::LoadOpts::new().with_max_segments(ms));
+            println!("DeltaColumn<i64>::load_with(max_segments={ms}) -> {}", match &r { Ok(c) => format!("Ok(len {}, last {:?})", c.len(), c.last()), Err(e) => format!("Err({e})") });
+            if let Ok(c) = r {
+                let again = DeltaColumn::<i64>::load(&c.save());
+                println!("    load(save(that column)) -> {}", match &again { Ok(c) => format!("Ok(len {})", c.len()), Err(e) => format!("Err({e})") });
+            }
+        }
+    }
     if on("prefix") {
         let col = PrefixColumn::<u32>::from_values(vec![5, 3, 7, 2]);
         for t in 0..20u64 {
